@@ -4,7 +4,7 @@ import re
 from engines.paths import enumerate_paths, classify_return
 from engines.prog import cname, term_str, int_range, int_bits
 from engines import terms as T
-from engines import wire
+from engines import wire, coltype
 from spec import int_widths as SPEC
 
 CONFIGS = ["tls"]
@@ -44,6 +44,13 @@ class Expr:
         self.dep = dep if dep is not None else bool(types)
 
 
+def _unwrap_result(t):
+    """the Result a term adapts without touching its Ok payload / Ok-ness: `r.map_err(f)`, `Try::branch(r)`"""
+    while isinstance(t, tuple) and t[0] == "call" and t[2] and re.search(r"Result::<T, E>::map_err$|Try>::branch$|Try::branch$", t[1]):
+        t = t[2][0]
+    return t
+
+
 def build(t, src_ty, depth=0):
     """Expr for term t where the source is `*self` (param 1 deref) or a variant payload named by is_src."""
     if depth > 30:
@@ -54,6 +61,8 @@ def build(t, src_ty, depth=0):
     if is_source(t):
         return Expr(lambda v: v, [src_ty], True)
     if isinstance(t, tuple):
+        if t[0] == "okpayload":
+            t = ("okpayload", _unwrap_result(t[1]))
         if t[0] == "okpayload" and T.is_call(t[1], r"impl std::convert::TryFrom<\w+> for \w+>::try_from$") and len(t[1][2]) == 1:
             m = re.search(r"TryFrom<\w+> for (\w+)>::try_from$", t[1][1])
             inner = build(t[1][2][0], src_ty, depth + 1)
@@ -118,16 +127,15 @@ def analyse_impl(ctx, prog, b, src_ty, ct_names, source_pred, label, delegate_ok
         signed = None
         lo, hi = R
         modelled = True
+        arm = coltype.arm_of(b, p, ct_names, prog)
         for v, t, nxt, blk in conds:
-            # column type switch
+            # column type tests (match arms, == / != against a constant) are folded into `arm` above
             if isinstance(v, tuple) and v[0] == "discr" and T.is_field(T.peel(v[1]), "coltype"):
-                vals = [x for x, g in zip(t["vals"], t["tgts"]) if g == nxt]
-                if nxt == t["otherwise"] and not vals:
-                    arm = ("other",)
-                else:
-                    arm = tuple(sorted(ct_names.get(int(x), "discr%s" % x) for x in vals))
                 continue
-            if isinstance(v, tuple) and v[0] == "discr" and T.is_call(v[1], r"impl std::convert::TryFrom<\w+> for \w+>::try_from$"):
+            if T.is_call(v, r"PartialEq(<[^>]*>)?>?::(eq|ne)$") and len(v[2]) == 2 and (T.is_field(T.peel(v[2][0]), "coltype") or T.is_field(T.peel(v[2][1]), "coltype")):
+                continue
+            if isinstance(v, tuple) and v[0] == "discr" and T.is_call(_unwrap_result(v[1]), r"impl std::convert::TryFrom<\w+> for \w+>::try_from$"):
+                v = ("discr", _unwrap_result(v[1]))     # Continue/Break of `?` carry the discriminants of Ok/Err
                 m = re.search(r"TryFrom<\w+> for (\w+)>::try_from$", v[1][1])
                 inner = build(v[1][2][0], src_ty)
                 tr_ = int_range(m.group(1))
@@ -342,7 +350,8 @@ def run(ctx):
             for v, tt, nxt, blk2 in conds:
                 vv, neg = v, False
                 truth = (nxt != tt["tgts"][tt["vals"].index("0")]) if "0" in tt["vals"] else None
-                if isinstance(vv, tuple) and vv[0] == "discr" and T.is_call(vv[1], r"impl std::convert::TryFrom<\w+> for \w+>::try_from$"):
+                if isinstance(vv, tuple) and vv[0] == "discr" and T.is_call(_unwrap_result(vv[1]), r"impl std::convert::TryFrom<\w+> for \w+>::try_from$"):
+                    vv = ("discr", _unwrap_result(vv[1]))
                     # `if let Ok(x) = T::try_from(n)`: on the Ok edge n lies in range(T)
                     m2 = re.search(r"TryFrom<\w+> for (\w+)>::try_from$", vv[1][1])
                     inner = build(vv[1][2][0], sty)
